@@ -79,10 +79,27 @@ def _src(expr, ptypes, ret):
     return f"@guppy\ndef main({params}) -> {ret}:\n    return {expr}\n"
 
 
+def _thorough_extra(t):
+    if t == "int":
+        ks = (4, 8, 16, 31, 32, 33, 52, 53, 54, 61)
+        return sorted({s * ((1 << k) + d) for k in ks for d in (-1, 0, 1) for s in (1, -1)} |
+                      {5, -5, 10, -10, 100, -100, 1000003, -1000003, P63 - 2, -P63 + 2})
+    if t == "nat":
+        ks = (4, 8, 16, 31, 33, 52, 53, 62)
+        return sorted({(1 << k) + d for k in ks for d in (-1, 0, 1)} | {5, 10, 100, 1000003, P63 + 1, P64 - 2})
+    if t == "float":
+        return [0.1, -0.1, 1 / 3, -1 / 3, 1e-3, 3.5, -3.5, 4.5, 1e15, -1e15, float(1 << 53), float((1 << 53) + 2), 2.0 ** 62,
+                -(2.0 ** 62), 1e-308, 1.7976931348623157e308, -1.7976931348623157e308, 123456.789, -123456.789]
+    return []
+
+
 def _grid(t, tier):
     if tier == "quick":
         return {"int": QUICK_INT, "nat": QUICK_NAT, "float": QUICK_FLOAT, "bool": BOOL_GRID}[t]
     g = list(GRIDS[t])
+    for v in _thorough_extra(t):
+        if v not in g:
+            g.append(v)
     return g
 
 
@@ -225,13 +242,29 @@ def classify(opn, otypes, ovals, kind, got, py, status):
             return "nonfinite-operand"
         if got == py:
             return "zero-sign"
+        ints_in = [v for v, t in zip(ovals, otypes) if t in ("int", "nat")]
+        if opn in ("truediv", "floordiv", "mod", "divmod()", "pow", "pow()") and any(float(v) != v for v in ints_in):
+            # an int operand beyond 2^53 is first converted to the nearest float (C16); Python's own
+            # int/int and int//float results are computed from the exact integers
+            return "inexact-operand-conversion"
         if divlike and rhs not in (None, 0):
+            from fractions import Fraction
+            fa, fb = float(lhs), float(rhs)
             try:
-                q = abs(float(lhs) / float(rhs))
+                qf = fa / fb
             except OverflowError:
-                q = math.inf
-            if q >= 2.0 ** 52 or (q < 2.3e-308 and lhs != 0):
-                return "inexact-quotient"   # a/b is not representable exactly enough (overflow / underflow / > 2^52)
+                qf = math.inf
+            if not math.isfinite(qf) or (abs(qf) < 2.3e-308 and fa != 0):
+                return "inexact-quotient"       # a/b over- or underflows
+            exact_q = Fraction(fa) / Fraction(fb)
+            if Fraction(qf) != exact_q:
+                return "inexact-quotient"       # the rounded quotient is not the exact one: floor() may be off by one
+            prod = Fraction(math.floor(qf)) * Fraction(fb)
+            try:
+                if Fraction(float(prod)) != prod:
+                    return "inexact-quotient"   # floor(a/b) * b is not representable
+            except OverflowError:
+                return "inexact-quotient"
         return "value"
     if kind in ("int", "nat"):
         if isinstance(py, float):
